@@ -847,9 +847,43 @@ def compare(ctx, cases, impl, model_lines):
                         break
             elif il.startswith("PANIC") or il.startswith("CRASH"):
                 orc.append((i, "%s: %s" % (prof, il), None))
+            elif parts[0] in ("h64", "h32") and parts[1] != "0":
+                # accumulator with a start value: no RFC checksum of a byte string to compare with, but the
+                # end-around-carry arithmetic is fixed by RFC 1071: the accumulator stays congruent mod 65535 to
+                # start + the 16 bit words added (native = little-endian lanes on this host), is 0 only if both are,
+                # and ones_complement is the complement of its 16 bit fold, stored big-endian
+                w = _helper_start_oracle(parts, il)
+                if w:
+                    orc.append((i, "%s: %s" % (prof, w), None))
     hist.update(info)
     return {"corr_mismatch": corr, "oracle_fail": orc, "hist": hist, "nontrivial": nontriv,
             "samples": [x[:300] for x in (cases[0], cases[len(cases) // 2], cases[-1])]}
+
+
+def _helper_start_oracle(parts, il):
+    try:
+        got = dict(x.split("=") for x in il.split() if "=" in x)
+        acc, oc, nz = int(got["sum"]), int(got["oc"]), int(got["nz"])
+    except Exception:
+        return "unparsable answer '%s'" % il[:80]
+    start = int(parts[1])
+    data = b"" if parts[2] == "-" else bytes.fromhex(parts[2])
+    words = 0
+    for k in range(0, len(data) - 1, 2):
+        words += data[k] | (data[k + 1] << 8)
+    if len(data) % 2:
+        words += data[-1]
+    total = start + words
+    if (acc - total) % 65535 != 0 or ((acc == 0) != (total == 0)):
+        return "accumulator %d is not congruent (mod 2^16-1) to start %d + the words added (%d)" % (acc, start, words)
+    fold = 65535 if (acc != 0 and acc % 65535 == 0) else acc % 65535
+    c = 65535 - fold
+    want = ((c & 255) << 8) | (c >> 8)
+    if oc != want:
+        return "ones_complement of the accumulator %d is %d, the complement of its 16 bit end-around-carry fold is %d" % (acc, oc, want)
+    if nz != (want if want != 0 else 65535):
+        return "to_ones_complement_with_no_zero is %d for a checksum of %d" % (nz, want)
+    return None
 
 
 def _proj(line):
